@@ -55,9 +55,11 @@ def deepStructs : Nat → Bytes
   | 0 => []
   | k+1 => [0x0c, 0, 1] ++ deepStructs k
 
--- the bound is reached: 70 nested struct headers drive the recursion to exactly 66 frames and DEPTH_LIMIT
-set_option maxRecDepth 8000 in
-example : convertUFD (deepStructs 70) = (Facts.ufMaxRecursionDepth + 1, .err .depth) := by decide
+-- the bound is reached: maxRecursionDepth + 5 nested struct headers drive the recursion to exactly
+-- maxRecursionDepth + 1 frames and DEPTH_LIMIT (generic in the constant)
+set_option maxRecDepth 16000 in
+example : convertUFD (deepStructs (Facts.ufMaxRecursionDepth + 5)) = (Facts.ufMaxRecursionDepth + 1, .err .depth) := by
+  decide
 
 /-- a hostile type byte ≥ 0x80 and a truncated input are plain errors -/
 example : convertUF [0x80, 0, 1, 0] = .err .unktype := by decide
